@@ -146,6 +146,7 @@ def run(rep, tier):
         rep.call(reject_rule, rep, prog, "C17.reject")
         rep.call(type_tables.t_types, rep, prog, "C17.table")
         rep.call(round_trip, rep, prog, "C17.round-trip")
+        rep.call(endpoints, rep, prog, "C17.endpoints")
         rep.call(convert_all, rep, prog, "C17.convert-all")
     if tier == "thorough":
         rep.set_cfg("witness")
@@ -386,6 +387,157 @@ def _exhaustive(ew, en, nar, wide):
                       "evaluated over the whole narrow range)" % (hi - lo + 1))
     return (False, "%d of %d values do not survive: v = %d widens to %d (0x%x) and comes back as %d"
             % (nbad, hi - lo + 1, first[0], first[1], first[1] & 0xffffffff, first[2]))
+
+
+import struct as _struct
+
+
+def _f32(x):
+    try:
+        return _struct.unpack("f", _struct.pack("f", x))[0]
+    except OverflowError:
+        return float("inf") if x > 0 else float("-inf")
+
+
+def _ep_eval(e, v, fty):
+    """value of a conversion's return expression at self = v; f32 arithmetic is emulated by
+    rounding every operation's exact (f64) result to f32 (innocuous double rounding: 53 >= 2*24+2)"""
+    k = e[0]
+    if k == "param":
+        return v
+    if k == "const":
+        if isinstance(e[1], bool):
+            return None
+        if isinstance(e[1], (int, float)):
+            return e[1]
+        return None
+    if k in ("ovf", "copy", "deref", "ref"):
+        return _ep_eval(e[1], v, fty)
+    if k == "cast":
+        x = _ep_eval(e[2], v, fty)
+        if x is None:
+            return None
+        kind, ty = e[1], e[3]
+        if kind == "IntToFloat":
+            return _f32(float(x)) if ty == "f32" else float(x)
+        if kind == "FloatToInt" and ty in TYMAX:
+            if x != x:
+                return 0
+            return int(max(TYMIN[ty], min(TYMAX[ty], x)))
+        if kind == "IntToInt" and ty in TYMAX:
+            span = TYMAX[ty] - TYMIN[ty] + 1
+            return (int(x) - TYMIN[ty]) % span + TYMIN[ty]
+        if kind == "FloatToFloat":
+            return _f32(x) if ty == "f32" else x
+        return None
+    if k == "bin":
+        a, b = _ep_eval(e[2], v, fty), _ep_eval(e[3], v, fty)
+        if a is None or b is None:
+            return None
+        fl = isinstance(a, float) or isinstance(b, float)
+        try:
+            r = {"Add": lambda: a + b, "Sub": lambda: a - b, "Mul": lambda: a * b,
+                 "Div": lambda: (a / b if fl else (abs(a) // abs(b)) * (1 if (a < 0) == (b < 0) else -1)),
+                 "Shl": lambda: a << b, "Shr": lambda: a >> b, "BitOr": lambda: a | b, "BitAnd": lambda: a & b,
+                 "Lt": lambda: a < b, "Le": lambda: a <= b, "Gt": lambda: a > b, "Ge": lambda: a >= b,
+                 }.get(e[1], lambda: None)()
+        except Exception:
+            return None
+        if r is None or isinstance(r, bool):
+            return r
+        return _f32(r) if (fl and fty == "f32") else r
+    if k in ("call", "callat"):
+        name = e[1] if k == "call" else e[2]
+        args = e[2] if k == "call" else e[3]
+        if name == "from_le_bytes":
+            a0 = args[0] if args else None
+            while isinstance(a0, tuple) and a0 and a0[0] in ("ref", "copy", "deref"):
+                a0 = a0[1]
+            if a0 and a0[0] == "agg":
+                bs = [_ep_eval(x, v, fty) for x in a0[4]]
+                if any(b is None for b in bs):
+                    return None
+                return sum(int(b) << (8 * i) for i, b in enumerate(bs))
+            return None
+        xs = [_ep_eval(x, v, fty) for x in args]
+        if any(x is None for x in xs):
+            return None
+        if name == "clamp" and len(xs) == 3:
+            return max(xs[1], min(xs[2], xs[0]))
+        if name == "max" and len(xs) == 2:
+            return max(xs)
+        if name == "min" and len(xs) == 2:
+            return min(xs)
+        if name == "round" and len(xs) == 1:
+            import math
+            x = xs[0]
+            return float(math.floor(abs(x) + 0.5)) * (1 if x >= 0 else -1)
+        if name == "saturating_add" and len(xs) == 2:
+            return max(-2**31, min(2**31 - 1, xs[0] + xs[1]))
+        a0 = args[0] if args else None
+        while isinstance(a0, tuple) and a0 and a0[0] in ("ref", "copy", "deref"):
+            a0 = a0[1]
+        if name == "from_le_bytes" and a0 and a0[0] == "agg":
+            bs = [_ep_eval(x, v, fty) for x in a0[4]]
+            if any(b is None for b in bs):
+                return None
+            return sum(int(b) << (8 * i) for i, b in enumerate(bs))
+        return None
+    if k == "agg":
+        return None
+    if k == "index" and e[2][0] == "const":
+        x = e[1]
+        if x[0] in ("call", "callat") and (x[1] if x[0] == "call" else x[2]) == "to_le_bytes":
+            val = _ep_eval((x[2] if x[0] == "call" else x[3])[0], v, fty)
+            if val is None:
+                return None
+            return (int(val) >> (8 * e[2][1])) & 0xff
+    return None
+
+
+ENDS = {"u8": (0, 255), "u16": (0, 65535), "f32": (0.0, 1.0)}
+
+
+def endpoints(rep, prog, rule):
+    rep.rule(rule, "each conversion between u8, u16 and f32 components maps the minimum of the source "
+             "range to the minimum of the destination range and the maximum to the maximum EXACTLY "
+             "(0 -> 0 / 0.0, 255 / 65535 / 1.0 -> 255 / 65535 / 1.0): the single return expression is "
+             "evaluated at the two end points, f32 operations emulated by rounding every exact result to "
+             "f32. `x as f32 * 0.003_921_568_6` (a truncated literal for 1/255) gives 0.99999994 for 255. "
+             "Conversions from / to i32 are not decided by this clause (the crate maps u8::MAX to "
+             "0x7f80_0000, not to i32::MAX: what the range of an I32 component is, is its own question)")
+    n = 0
+    for f, src, tref in sorted(conversions(prog), key=lambda x: x[0].id):
+        dst = f.d.get("output")
+        if src not in ENDS or dst not in ENDS or src == dst:
+            continue
+        n += 1
+        rep.touch(f)
+        key = "%s->%s" % (src, dst)
+        ds = f.defs().get(0, [])
+        if len(ds) != 1:
+            rep.unk(rule, key, f.loc, "conversion with several return expressions")
+            continue
+        sym = Sym(f)
+        e = sym.rvalue(ds[0][2], ds[0][0], (ds[0][0], ds[0][1]))
+        fty = "f32"
+        bad = None
+        unk = False
+        for which, sv, dv in (("minimum", ENDS[src][0], ENDS[dst][0]), ("maximum", ENDS[src][1], ENDS[dst][1])):
+            r = _ep_eval(e, sv, fty)
+            if r is None:
+                unk = True
+                break
+            if r != dv:
+                bad = (which, sv, r, dv)
+        if unk:
+            rep.unk(rule, key, f.loc, "return expression %s is not evaluated" % fmt(e)[:80])
+        elif bad:
+            rep.bad(rule, key + "|" + bad[0], f.loc, "%s maps the %s %r of %s to %r, not to %r" % (
+                f.name, bad[0], bad[1], src, bad[2], bad[3]))
+        else:
+            rep.ok(rule, key, f.loc, "%r -> %r, %r -> %r" % (ENDS[src][0], ENDS[dst][0], ENDS[src][1], ENDS[dst][1]))
+    rep.floor(rule, "conversions among u8, u16 and f32", n, 6)
 
 
 def round_trip(rep, prog, rule):
